@@ -1,6 +1,6 @@
 (* Proofs about the composed timer model (model/TimersFull.v): it refines model/Timers.v (so the 11 theorems of C09
    hold of it), the per-space invariant, timer_sources_sound, timer_progress, and the stale-_pacing_at refutation. *)
-From AQ Require Import lib.Base lib.Tok model.Timers model.TimersSpec proofs.TimersP model.TimersFull.
+From AQ Require Import lib.Base lib.Tok model.Timers model.TimersSpec proofs.TimersP model.TimersFull model.TimersFullSpec.
 
 (* ================= 1. the composed model refines model/Timers.v ================= *)
 
@@ -101,13 +101,6 @@ Proof.
   destruct (run (f_c f1) (base_ops reset f1 t)) as [rs' c2]. cbn in IH. destruct IH; subst. split; reflexivity.
 Qed.
 
-(* how a run of the composed model may begin *)
-Definition ffirst_op (client : bool) (o : fop) : Prop :=
-  match o with
-  | FConnect _ _ => client = true
-  | FReceive _ _ _ => client = false
-  | _ => False
-  end.
 
 Lemma ffirst_base client o : ffirst_op client o -> first_op client (base_op (full_init client) o).
 Proof. destruct o; cbn; auto. Qed.
@@ -131,15 +124,7 @@ Qed.
 
 (* ================= 2. the invariant of the timer sources ================= *)
 
-(* a discarded space contributes nothing; ack_at is armed exactly while an ACK is owed *)
-Definition sp_ok (s : tspace) : Prop :=
-  (ts_disc s = true -> ts_ack_at s = None /\ ts_loss_time s = None /\ ts_aeif s = 0) /\
-  (ts_ack_at s <> None -> ts_owed s > 0) /\
-  (ts_disc s = false -> ts_owed s > 0 -> ts_ack_at s <> None) /\
-  0 <= ts_owed s.
 
-Definition sinv (f : full) : Prop :=
-  Forall sp_ok (f_sp f) /\ (f_pacing f <> None -> c_has_path (f_c f) = true).
 
 Ltac dsp s := destruct s as [aa lt ae di ow].
 
@@ -181,7 +166,6 @@ Proof.
   destruct ns; cbn; [assumption|]. constructor; [now apply ok_removed|auto].
 Qed.
 
-Definition oks (f : full) : Prop := Forall sp_ok (f_sp f).
 
 Lemma oks_upd i g f : (forall s, sp_ok s -> sp_ok (g s)) -> oks f -> oks (upd_sp i g f).
 Proof. intros; unfold oks, upd_sp; cbn. now apply Forall_upd. Qed.
@@ -473,20 +457,7 @@ Proof.
   - destruct IH as (sp & Hin & Hp); [lia|]. exists sp; auto.
 Qed.
 
-Definition src_legit (ptod d : Z) (f : full) (v : Z) (s : src) : Prop :=
-  match s with
-  | SrcClose => v = d
-  | SrcAck i => exists sp, nth_error (f_sp f) i = Some sp /\ ts_ack_at sp = Some v /\ ts_disc sp = false /\ ts_owed sp > 0
-  | SrcLossTime i => exists sp, nth_error (f_sp f) i = Some sp /\ ts_loss_time sp = Some v /\ ts_disc sp = false /\
-                                lspace (f_sp f) = Some (i, v)
-  | SrcPto => v = ptod /\ lspace (f_sp f) = None /\
-              (f_pcav f = false \/ exists sp, In sp (f_sp f) /\ ts_disc sp = false /\ ts_aeif sp > 0)
-  | SrcPacing => f_pacing f = Some v
-  end.
 
-Definition lower_bound (ptod d : Z) (f : full) (v : Z) : Prop :=
-  v <= d /\ (forall sp a, In sp (f_sp f) -> ts_ack_at sp = Some a -> v <= a) /\
-  (forall l, loss_time_of f ptod = Some l -> v <= l) /\ (forall p, f_pacing f = Some p -> v <= p).
 
 Lemma fget_timer_src ptod d f : is_end (c_state (f_c f)) = false -> c_close_at (f_c f) = Some d ->
   fst (fget_timer ptod f) = Ok (Some (fst (timer_src ptod d f))).
@@ -594,12 +565,6 @@ Qed.
 
 (* ================= 4. timer_progress ================= *)
 
-(* The adapter honours get_timer(): it returned v; the adapter calls handle_timer(now = v) and then transmits
-   (datagrams_to_send(now = v)), as aioquic.asyncio's _handle_timer does. *)
-Definition fire1 (reset : bool) (ptod v : Z) (te : teff) (f : full) : full :=
-  snd (fstep reset (snd (fstep reset f (FGetTimer ptod))) (FTimer v te)).
-Definition fire2 (reset : bool) (ptod v pto3 : Z) (te : teff) (w : sendw) (f : full) : full :=
-  snd (fstep reset (fire1 reset ptod v te f) (FSend v pto3 w)).
 
 Lemma ack_scan_lt l : forall i cur v s, ack_scan i l cur = (v, s) -> (v, s) = cur \/ v < fst cur.
 Proof.
@@ -760,17 +725,6 @@ Proof.
   cbn [snd]. unfold sp_at, upd_sp. cbn [f_sp set_sp]. now apply nth_upd_other.
 Qed.
 
-(* QuicPacketBuilderStop does not escape from _write_handshake, and 1-RTT / 0-RTT send keys exist *)
-Definition reaches_app (w : sendw) (f : full) : Prop :=
-  (f_confirmed f = true \/
-   (fst (whs 0 (sw_h0 w) f) = false /\ fst (whs 1 (sw_h1 w) (snd (whs 0 (sw_h0 w) f))) = false)) /\
-  sw_appkeys w = true.
-(* ... and the first iteration of _write_application applies pacing (no application ACK is due) *)
-Definition app_consults (now : Z) (w : sendw) (f : full) : Prop :=
-  reaches_app w f /\ sw_app w <> [] /\ match ts_ack_at (sp_at f 2) with None => True | Some a => now < a end.
-(* next_send_time returns None or now + packet_time with packet_time > 0 *)
-Definition pacer_sane (now : Z) (w : sendw) : Prop :=
-  Forall (fun it => match ai_pacer it with Some p => now < p | None => True end) (sw_app w).
 
 Lemma p_writers now w f : f_pacing (writers now w f) = f_pacing f \/
   exists it, In it (sw_app w) /\ f_pacing (writers now w f) = ai_pacer it.
@@ -838,4 +792,52 @@ Proof.
         + subst fw f0. destruct (p_writers_consult v w f1 Hcons) as (it & Hin' & E). exact (Hin it Hin' E). }
     cbn [f_pacing set_c]. destruct (sw_probe_clr w); (destruct (sw_produced w); [destruct (sw_sent_hs w && c_client (f_c f1))|]);
       cbn [f_pacing set_c set_sp set_probe]; try rewrite p_discard_epoch; cbn [f_pacing set_c set_sp set_probe]; exact Hpw.
+Qed.
+
+
+
+Lemma timer_progress_pacing_refuted_lemma :
+  exists ops ptod d v,
+    let f := snd (frun false (full_init false) ops) in
+    (exists o t, ops = o :: t /\ ffirst_op false o) /\
+    c_close_at (f_c f) = Some d /\ c_state (f_c f) = CONNECTED /\
+    timer_src ptod d f = (v, SrcPacing) /\ pacer_sane v stale_send /\
+    fst (fstep false f (FGetTimer ptod)) = RTimer (Some v) /\
+    let f0 := snd (fstep false f (FGetTimer ptod)) in
+    fst (frun false f0 (stale_loop ptod v)) = [RUnit; RSent SNone; RTimer (Some v)] /\
+    forall n, spin false n (stale_loop ptod v) f0 = f0.
+Proof.
+  exists stale_history, 300, 1010, 11. cbv zeta.
+  split; [eexists; eexists; split; [reflexivity|reflexivity]|].
+  split; [reflexivity|]. split; [reflexivity|]. split; [reflexivity|].
+  split; [repeat constructor|]. split; [reflexivity|]. split; [reflexivity|].
+  assert (Hfix : snd (frun false (snd (fstep false (snd (frun false (full_init false) stale_history)) (FGetTimer 300))) (stale_loop 300 11))
+                 = snd (fstep false (snd (frun false (full_init false) stale_history)) (FGetTimer 300))) by (vm_compute; reflexivity).
+  induction n as [|n IH]; [reflexivity|]. cbn [spin]. rewrite Hfix. exact IH.
+Qed.
+
+(* with the reset of docs/C09-fix-1.patch the same history does not spin: after one round _pacing_at is None *)
+Lemma stale_history_fixed :
+  let f := snd (frun true (full_init false) stale_history) in
+  let f0 := snd (fstep true f (FGetTimer 300)) in
+  timer_src 300 1010 f = (11, SrcPacing) /\
+  f_pacing (snd (frun true f0 (stale_loop 300 11))) = None /\
+  fst (frun true f0 (stale_loop 300 11)) = [RUnit; RSent SNone; RTimer (Some 300)].
+Proof. vm_compute. repeat split; reflexivity. Qed.
+
+(* ================= 6. statements over reachable states ================= *)
+Lemma timer_progress_partial_lemma : forall reset client o ops ptod pto3 te w d v s, ffirst_op client o ->
+  let f := snd (frun reset (full_init client) (o :: ops)) in
+  c_close_at (f_c f) = Some d -> is_end (c_state (f_c f)) = false -> timer_src ptod d f = (v, s) ->
+  progress_of reset ptod pto3 te w f v s.
+Proof.
+  intros reset client o ops ptod pto3 te w d v s Hf f Hd He Hs.
+  pose proof (freach_inv reset client o ops Hf) as Hi. fold f in Hi.
+  pose proof (freach_sinv reset client o ops) as Hsi. fold f in Hsi. destruct Hsi as [Hok Hp].
+  destruct s as [|i|i| |]; cbn [progress_of].
+  - destruct (timer_src_lt _ _ _ _ _ Hs) as [[_ ->]|[Hn _]]; [|congruence]. now apply timer_progress_close.
+  - exact I.
+  - destruct (timer_progress_loss reset ptod te f d v i Hd He Hs Hok) as (_ & A & B). split; assumption.
+  - now apply (timer_progress_pto reset ptod te f d v).
+  - intros Hsane Hwhy. apply (timer_progress_pacing_lemma reset ptod pto3 te w f d v); auto. split; assumption.
 Qed.
